@@ -14,7 +14,7 @@ Definition invA (s : state) : Prop :=
   forall v, vw s = Some v -> c_fin v = true -> c_del v = false -> has_fin (pc s) = true.
 
 Lemma has_fin_del_claim p : has_fin (del_claim p) = has_fin p.
-Proof. destruct p as [c|]; simpl; [|reflexivity]. destruct (c_fin c) eqn:E; simpl; [exact E|reflexivity]. Qed.
+Proof. destruct p as [c|]; simpl; [|reflexivity]. destruct (c_fin c) eqn:E; simpl; [exact E|destruct (c_ffin c); simpl; [exact E|reflexivity]]. Qed.
 
 Lemma has_fin_pc_rel p p' : pc_rel p p' -> has_fin p' = has_fin p.
 Proof. intros [->| ->]; [reflexivity|apply has_fin_del_claim]. Qed.
@@ -67,6 +67,8 @@ Proof.
   - destruct (nd s); exact (Inv v Hv Hf Hd).
   - exact (Inv v Hv Hf Hd).
   - destruct (dp s); exact (Inv v Hv Hf Hd).
+  - specialize (Inv v Hv Hf Hd). unfold set_ffin. destruct (pc s) as [c|]; [|discriminate]. simpl in *. rewrite Inv.
+    rewrite !Bool.andb_false_r. simpl. exact Inv.
 Qed.
 
 Lemma invA_init : invA init.
